@@ -230,6 +230,19 @@ let do_json (op : string) (a : string list) : string =
       | JOk (v, _) -> "ok:" ^ fmt_cps (stringify (canon v)) | JErr -> "err" | JPanic -> "panic")
   | _ -> "?json-op"
 
+(* ---------- C18 vpl ---------- *)
+let dot_cps (l : n list) : string = if l = [] then "e" else String.concat "." (List.map string_of_n l)
+let rec fmt_vnode (Node (name, props, srcs)) : string =
+  (* BTreeMap<String, Vec<String>>: keys sorted, values of repeated keys appended in order *)
+  let keys = List.sort_uniq compare (List.map (fun (k, _) -> List.map int_of_n k) props) in
+  let ps = List.map (fun ik -> let k = List.map n_of_int ik in
+             dot_cps k ^ ":" ^ String.concat "|" (List.map dot_cps (List.concat (List.map snd (List.filter (fun (k', _) -> k' = k) props))))) keys in
+  Printf.sprintf "N(%s;%s;%s)" (dot_cps name) (String.concat "," ps) (String.concat "/" (List.map fmt_vpipe srcs))
+and fmt_vpipe (p : node list) : string = String.concat "+" (List.map fmt_vnode p)
+let do_vpl (a : string list) : string =
+  let arg = match a with [x] -> x | [] -> "-" | _ -> failwith "vpl args" in
+  match parse_vpl vpl_empty_variant (cps_of arg) with Some p -> "ok:" ^ fmt_vpipe p | None -> "err"
+
 (* ---------- dispatch ---------- *)
 let dispatch (op : string) (args : string list) : string =
   match op with
@@ -238,6 +251,7 @@ let dispatch (op : string) (args : string list) : string =
   | "acc" | "chunks" -> do_stream op args
   | "recomp" | "optc" -> do_recomp op args
   | "tilepath" | "static" -> do_http op args
+  | "vpl" -> do_vpl args
   | _ when String.length op > 5 && String.sub op 0 5 = "json." -> do_json op args
   | "sysprog" -> (match args with
       | [off; len] -> String.concat "," (List.map (function
